@@ -119,32 +119,73 @@ pub fn compare(exp: &Exp, d: &Delta, home: u32, sem: bool, what: &str, cx: &mut 
         cx.fail_derail(lc, "clone-calls", format!("{}: Clone calls differ: expected (tag,src,new) {:?}, got {:?}", what, exp.clones, d.clones));
     }
     // --- allocator traffic
-    let mut new_blocks = vec![];
-    let evs: Vec<&Event> = d.events.iter().collect();
-    let mut structural_ok = evs.len() == exp.events.len();
-    if structural_ok {
-        for (g, e) in evs.iter().zip(exp.events.iter()) {
-            match (g.kind, e) {
-                (EvKind::Alloc, ExpEv::Alloc { size, align }) => {
-                    new_blocks.push(g.addr);
-                    if g.size != *size || g.align != *align {
-                        cx.fail(LAYOUT, "alloc-layout", format!("{}: allocation requested with (size {}, align {}), independent layout computation gives ({}, {})", what, g.size, g.align, size, align));
+    // One attempt = match the observed events against the expected ones, collecting layout remarks.
+    let attempt = |evs: &[&Event]| -> (bool, Vec<usize>, Vec<(&'static str, String)>) {
+        let mut new_blocks = vec![];
+        let mut remarks = vec![];
+        let mut ok = evs.len() == exp.events.len();
+        if ok {
+            for (g, e) in evs.iter().zip(exp.events.iter()) {
+                match (g.kind, e) {
+                    (EvKind::Alloc, ExpEv::Alloc { size, align }) => {
+                        new_blocks.push(g.addr);
+                        if g.size != *size || g.align != *align {
+                            remarks.push(("alloc-layout", format!("{}: allocation requested with (size {}, align {}), independent layout computation gives ({}, {})", what, g.size, g.align, size, align)));
+                        }
                     }
-                }
-                (EvKind::Dealloc, ExpEv::Dealloc { addr, size, align }) => {
-                    if g.addr != *addr {
-                        structural_ok = false;
-                    } else if g.size != *size || g.align != *align {
-                        cx.fail(LAYOUT, "dealloc-layout", format!("{}: block {:#x} returned with (size {}, align {}), was requested with ({}, {})", what, addr, g.size, g.align, size, align));
+                    (EvKind::Dealloc, ExpEv::Dealloc { addr, size, align }) => {
+                        if g.addr != *addr {
+                            ok = false;
+                        } else if g.size != *size || g.align != *align {
+                            remarks.push(("dealloc-layout", format!("{}: block {:#x} returned with (size {}, align {}), was requested with ({}, {})", what, addr, g.size, g.align, size, align)));
+                        }
                     }
-                }
-                (EvKind::Dealloc, ExpEv::DeallocOfStepAlloc { nth }) => {
-                    if new_blocks.get(*nth) != Some(&g.addr) {
-                        structural_ok = false;
+                    (EvKind::Dealloc, ExpEv::DeallocOfStepAlloc { nth }) => {
+                        if new_blocks.get(*nth) != Some(&g.addr) {
+                            ok = false;
+                        }
                     }
+                    _ => ok = false,
                 }
-                _ => structural_ok = false,
             }
+        }
+        (ok, new_blocks, remarks)
+    };
+    let evs: Vec<&Event> = d.events.iter().collect();
+    let (mut structural_ok, mut new_blocks, mut remarks) = attempt(&evs);
+    if !structural_ok {
+        // Scratch memory is the implementation's business: a block that is both requested and
+        // returned (with the layout it was requested with) inside this one step, and that the model
+        // does not expect to see, is left out and the rest is compared again.
+        let mut transient: Vec<usize> = vec![];
+        for (i, a) in evs.iter().enumerate() {
+            if a.kind == EvKind::Alloc {
+                if let Some(f) = evs[i + 1..].iter().find(|f| f.kind == EvKind::Dealloc && f.addr == a.addr) {
+                    if f.size == a.size && f.align == a.align {
+                        transient.push(a.addr);
+                    }
+                }
+            }
+        }
+        // try leaving out every subset of the transient blocks, smallest first (there are at most a few)
+        let n = transient.len().min(4);
+        let mut masks: Vec<u32> = (1..(1u32 << n)).collect();
+        masks.sort_by_key(|m| m.count_ones());
+        for m in masks {
+            let skip: Vec<usize> = (0..n).filter(|i| m & (1 << i) != 0).map(|i| transient[i]).collect();
+            let filtered: Vec<&Event> = evs.iter().filter(|e| !skip.contains(&e.addr)).cloned().collect();
+            let (ok2, nb2, rm2) = attempt(&filtered);
+            if ok2 {
+                structural_ok = true;
+                new_blocks = nb2;
+                remarks = rm2;
+                break;
+            }
+        }
+    }
+    if structural_ok {
+        for (code, msg) in remarks {
+            cx.fail(LAYOUT, code, msg);
         }
     }
     if !structural_ok {
